@@ -12,7 +12,7 @@ RULE = (
     "distinct = hash of (family, shape/state); trivial = single node"
 )
 ASSUMPTIONS = ["depth <= 150 (deeper trees hit the interpreter recursion limit in height, which is Python's, not anytree's)"]
-GATES = ["mon.C04.first_read", "mon.C04.node", "mon.C04.common", "C04.after_mutation", "C04.height_not_last_child", "C04.cross_tree_common", "C04.after_faulted_history"]
+GATES = ["mon.C04.first_read", "C04.shape.widestar", "mon.C04.node", "mon.C04.common", "C04.after_mutation", "C04.height_not_last_child", "C04.cross_tree_common", "C04.after_faulted_history"]
 
 
 def plan(tier, seed, jobs):
@@ -152,10 +152,12 @@ def run(ctx):
                         ctx.count("mon.C04.first_read")
                         for i in reversed(range(n)):
                             v = getattr(nodes[i], a)
-                            if isinstance(v, tuple):
+                            if id(v) in idmap:
+                                v = idmap[id(v)]  # (a node may itself be a tuple)
+                            elif type(v) is tuple:
                                 v = [idmap.get(id(x), "?") for x in v]
                             elif type(v) not in (bool, int):
-                                v = idmap.get(id(v), "?")
+                                v = "?"
                             e = expected_for(par, ch, i)[a]
                             if v != e:
                                 ctx.violation("C04/%s/first-read" % a, "navigation-definition", {"family": fam, "par": list(par), "node": i, "first_read": a}, expected={a: e}, observed={a: v})
@@ -185,6 +187,10 @@ def run(ctx):
         elif r % 9 == 1:
             kind, n = "spinebush", rng.randint(45, 130)
         par, kind = gen.random_tree(rng, n, kind)
+        if r % 9 == 2 and r < 40:
+            # a very wide node: more children than CPython keeps small-int singletons for
+            kind, n = "widestar", rng.randint(258, 300)
+            par = tuple([None] + [0] * (n - 2) + [n - 2])
         fam = fams[r % len(fams)]
         nodes = TR.build(par, fam)
         case = {"family": fam, "par": list(par), "kind": kind}
@@ -226,10 +232,12 @@ def replay(ctx, wit):
         a = c["first_read"]
         for i in reversed(range(len(par))):
             v = getattr(nodes[i], a)
-            if isinstance(v, tuple):
+            if id(v) in idmap:
+                v = idmap[id(v)]
+            elif type(v) is tuple:
                 v = [idmap.get(id(x), "?") for x in v]
             elif type(v) not in (bool, int):
-                v = idmap.get(id(v), "?")
+                v = "?"
             e = expected_for(par, ch, i)[a]
             if v != e:
                 ctx.violation("C04/%s/first-read" % a, "navigation-definition", dict(c, node=i), expected={a: e}, observed={a: v})
